@@ -85,6 +85,28 @@ JudgeLex(s, e) ==
              THEN {} ELSE {"C01/Lex/Attachments"})
     \cup (IF Len(ms) = Len(s.mds) /\ \A i \in DOMAIN ms : SameMd(ms[i], s.mds[i]) THEN {} ELSE {"C01/Lex/Metadata"})
 
+(* runs over files built by the reference encoder in an arbitrary layout (C11, C12): the logical content is the
+   message sequence, the sets of schema and channel records, the attachments, the metadata and the header;
+   repetition and placement of schema/channel records belong to the layout *)
+IsLayoutRun(s) == "layout" \in DOMAIN s.cfg
+JudgeLexLayout(s, e) ==
+  IF e["end"] # "eof" THEN {"Layout/Lex/EndsWithError"}
+  ELSE LET toks == BeforeDataEnd(e.toks)
+           ms == Sel(toks, LAMBDA t : t.k = "Message")
+           ss == Sel(toks, LAMBDA t : t.k = "Schema")
+           cs == Sel(toks, LAMBDA t : t.k = "Channel")
+           as == Sel(toks, LAMBDA t : t.k = "Attachment")
+           mds == Sel(toks, LAMBDA t : t.k = "Metadata")
+           cm == Sel(s.data, LAMBDA r : r.k = "Message")
+           csch == Sel(s.data, LAMBDA r : r.k = "Schema")
+           cch == Sel(s.data, LAMBDA r : r.k = "Channel") IN
+    (IF e.toks # <<>> /\ e.toks[1].k = "Header" /\ e.toks[1].profile = s.header[1].profile /\ e.toks[1].library = s.header[1].library THEN {} ELSE {"Layout/Lex/Header"})
+    \cup (IF Len(ms) = Len(cm) /\ \A i \in DOMAIN ms : SameMessage(ms[i], cm[i]) THEN {} ELSE {"Layout/Lex/Messages"})
+    \cup (IF (\A i \in DOMAIN ss : \E j \in DOMAIN csch : SameSchema(ss[i], csch[j])) /\ (\A i \in DOMAIN cs : \E j \in DOMAIN cch : SameChannel(cs[i], cch[j]))
+          THEN {} ELSE {"Layout/Lex/Definitions"})
+    \cup (IF Len(as) = Len(s.atts) /\ \A i \in DOMAIN as : SameAtt(as[i], s.atts[i]) /\ ~as[i].dataerr /\ as[i].crcread /\ as[i].crcmatch THEN {} ELSE {"Layout/Lex/Attachments"})
+    \cup (IF Len(mds) = Len(s.mds) /\ \A i \in DOMAIN mds : SameMd(mds[i], s.mds[i]) THEN {} ELSE {"Layout/Lex/Metadata"})
+
 (* the channel / schema a message is bound to: the record written with that id *)
 ChannelOf(s, id) == LET c == Sel(s.data, LAMBDA r : r.k = "Channel" /\ r.id = id) IN c[1]
 SchemaOf(s, id)  == LET c == Sel(s.data, LAMBDA r : r.k = "Schema" /\ r.id = id) IN c[1]
@@ -140,7 +162,7 @@ Judge(s, e) ==
   CASE e.ev = "New"    -> IF e.ret = "ok" THEN {} ELSE {"C01/NewWriterFailed"}
     [] e.ev = "Call"   -> JudgeCall(s, e)
     [] e.ev = "File"   -> JudgeFile(s, e)
-    [] e.ev = "Lex"    -> JudgeLex(s, e)
+    [] e.ev = "Lex"    -> IF IsLayoutRun(s) THEN JudgeLexLayout(s, e) ELSE JudgeLex(s, e)
     [] e.ev = "Scan"   -> JudgeScan(s, e)
     [] e.ev = "Retain" -> JudgeRetain(s, e)
     [] e.ev = "Sink"   -> JudgeSink(e)
